@@ -1,11 +1,14 @@
-/- Verbs of the hand-written protocol models (E2).  Each model contributes a handler over a shared
-   protocol state. -/
+/- Verbs of the hand-written protocol models (E2).  Each model contributes a pure handler
+   `List String → Option String`; `pairfilter <ints…>` → Model/PairFilter.lean. -/
+import MjwVerif.Model.PairFilter
 namespace Proto
 
 structure PState where
   dummy : Nat := 0
 
 def handle (st : PState) (verb : String) (args : List String) : Option (PState × String) :=
-  none
+  match verb with
+  | "pairfilter" => some (st, (Mjw.PairFilter.proto args).getD "NONE")
+  | _ => none
 
 end Proto
